@@ -8,11 +8,14 @@
 (* get_name and NamerTrace judges the recorded history.                      *)
 (*                                                                           *)
 (* ImplReserved is read from the real code (the set it pre-seeds `counts`    *)
-(* with); Fixed = TRUE explores the proposed repair instead (L2GetFixed with *)
-(* the standard's keyword list).                                             *)
+(* with).  Fixed = TRUE explores the repaired get_name (L2GetFixed); Resv =  *)
+(* "std" seeds it with the standard's keyword list instead of the code's.    *)
+(* The harness explores the design the real code was observed to follow      *)
+(* (NamerTrace!L2Agrees / L2AgreesFixed) and, as evidence for the proposed   *)
+(* repair, Fixed = TRUE with Resv = "std".                                   *)
 EXTENDS Namer, Json, IOUtils
 
-CONSTANTS NSig, Fixed
+CONSTANTS NSig, Fixed, Resv            \* Resv: "impl" = the implementation's keyword set, "std" = the standard's
 
 (* adversarial alphabet: a plain name, names that look like generated suffixed names,  *)
 (* keywords, names that look like suffixed keywords, and the three keywords whose       *)
@@ -38,10 +41,11 @@ Init == /\ base \in {f \in [Sigs -> {Alphabet[i] : i \in DOMAIN Alphabet}] :
         /\ last = <<0, "">>
 
 Used == {mon.tbl[s] : s \in mon.asked}
+Seed == IF Resv = "std" THEN Reserved ELSE ImplReserved
 
 GetName(s) ==
-  LET g == IF Fixed THEN L2GetFixed(counts, sfx, Reserved, Used, NSig + 2, s, base[s])
-                    ELSE L2Get(counts, sfx, ImplReserved, s, base[s])
+  LET g == IF Fixed THEN L2GetFixed(counts, sfx, Seed, Used, NSig + 2, s, base[s])
+                    ELSE L2Get(counts, sfx, Seed, s, base[s])
   IN /\ counts' = g.counts
      /\ sfx' = g.sfx
      /\ mon' = MonStep(mon, s, g.name)
